@@ -1373,6 +1373,14 @@ ok:
                 if ((ssl->flags & SSL_FLAGS_ECC_CIPHER) != 0)
                 { /* DHE with ECC */
 #   ifdef USE_ECC_CIPHER_SUITE
+                    if (ssl->sec.eccKeyPriv == NULL)
+                    {
+                        /* No ephemeral key (yet, or any more): this flight
+                           cannot be built, e.g. a DTLS timer firing before
+                           the hello exchange has produced one. */
+                        psTraceErrr("No ephemeral ECC key for hello flight\n");
+                        return MATRIXSSL_ERROR;
+                    }
                     if (ssl->flags & SSL_FLAGS_DHE_WITH_RSA)
                     {
                         /*
